@@ -154,14 +154,13 @@ class BasicBlockNode:
         Returns:
             An iterable of tuples containing the index of the instructions and the instructions
         """
+        # The yielded indices are used to insert into the basic block itself, which
+        # also holds pseudo-instructions (TryBegin/TryEnd), so they must be counted.
         instr_index = 0
         while instr_index < len(self._basic_block):
-            instr = self.try_get_instruction(instr_index)
+            instr = self._basic_block[instr_index]
 
-            if instr is None:
-                break
-
-            if isinstance(instr, ArtificialInstr):
+            if not isinstance(instr, Instr) or isinstance(instr, ArtificialInstr):
                 instr_index += 1
                 continue
 
@@ -169,7 +168,8 @@ class BasicBlockNode:
 
             # Update the instr_index to retarget at the original instruction
             while (
-                isinstance(new_instr := self._get_instruction(instr_index), ArtificialInstr)
+                not isinstance(new_instr := self._basic_block[instr_index], Instr)
+                or isinstance(new_instr, ArtificialInstr)
                 or new_instr != instr
             ):
                 instr_index += 1
@@ -185,10 +185,12 @@ class BasicBlockNode:
         Returns:
             The index of the instruction in the basic block and the instruction itself
         """
+        # The index refers to the basic block itself, which also holds
+        # pseudo-instructions (TryBegin/TryEnd), so they must be counted.
         return tuple(
             (instr_index, instr)
-            for instr_index, instr in enumerate(self.instructions)
-            if not isinstance(instr, ArtificialInstr)
+            for instr_index, instr in enumerate(self._basic_block)
+            if isinstance(instr, Instr) and not isinstance(instr, ArtificialInstr)
         )[original_index]
 
     def __eq__(self, other: object) -> bool:
